@@ -1991,6 +1991,13 @@ func (db *DB) newSyncExecutor(ctx context.Context) (*syncExecutor, error) {
 	db.mu.Lock()
 	defer db.mu.Unlock()
 
+	// A sync or checkpoint that was queued on the executor behind Close must
+	// not initialize the database again: that would reopen the SQL handles
+	// and take the read lock on a DB nobody is going to close any more.
+	if !db.opened && db.db == nil {
+		return nil, ErrDatabaseNotOpen
+	}
+
 	if err := db.init(ctx); err != nil {
 		return nil, err
 	} else if db.db == nil {
